@@ -123,6 +123,7 @@ def gen_plan(seed, tier="quick"):
         "env": ({k: v for k, v in (("SLURM_CPUS_PER_TASK", r.choice(["1", "2", "3"])), ("SLURM_JOB_CPUS_PER_NODE", r.choice(["2", "4"])),
                                    ("LOKY_MAX_CPU_COUNT", r.choice(["1", "2"])), ("OMP_NUM_THREADS", "1"), ("NUMBA_NUM_THREADS", "1"))
                  if r.random() < 0.6} if r.random() < 0.15 else None),
+        "shared_reader_kwargs": r.random() < 0.25,      # the caller reuses one (empty) reader_kwargs dict for all its calls
         "p_switch": r.choice([0.0, 0.0, 0.01, 0.05, 0.2, 0.5, 1.0]),
         "victim": r.choice([None, None, 0, nproc - 1, r.randrange(nproc)]),
         "order": r.choice([None, None, "reverse", "shuffle"]),
@@ -186,6 +187,9 @@ def _wrot(plan, ncv):
     return m
 
 
+_SHARED_READER_KWARGS = {}
+
+
 def _destripe_call(plan, binf, out, nproc, append, W):
     fs = W["fs"]
     kw = dict(output_file=out, nprocesses=nproc, nbatch=(None if plan.get("nbatch_default") else plan["nbatch"]), k_kwargs=_k_kwargs(plan, fs),
@@ -195,6 +199,8 @@ def _destripe_call(plan, binf, out, nproc, append, W):
         kw["nc_out"] = W["ncv"]
     if plan.get("out_dtype", "int16") != "int16":
         kw["dtype"] = np.dtype(plan["out_dtype"]).type
+    if plan.get("shared_reader_kwargs"):
+        kw["reader_kwargs"] = _SHARED_READER_KWARGS       # ONE dict object handed to every call of the run (earlier call, reference, n-worker run)
     if plan.get("qc_path"):
         qc = Path(out).parent / "qc"
         qc.mkdir(exist_ok=True)
@@ -397,6 +403,7 @@ def _make_shank_world(plan, base):
 
 def _run(plan, base):
     _install()
+    _SHARED_READER_KWARGS.clear()
     shank_world = plan["fixture"] == "NP24_shank"
     fs = world.meta_fs("NP24" if shank_world else plan["fixture"])
     nap, ns = plan["nap"], plan["ns"]
@@ -776,7 +783,7 @@ def _check_reference(plan, O, out, offset, nc_out, fs, rec, sigbase, W):
 
 
 def shrink_candidates(plan):
-    for key, val in (("env", None), ("prelude", None), ("append", False), ("delay", None), ("io_mode", False), ("out_dtype", "int16"), ("mixed_gains", False), ("rerun_killed", None), ("rerun", False), ("form", "bin"), ("qc_path", False), ("saturate", []), ("wrot", "none"), ("reject", False), ("ns2add", 0),
+    for key, val in (("shared_reader_kwargs", False), ("env", None), ("prelude", None), ("append", False), ("delay", None), ("io_mode", False), ("out_dtype", "int16"), ("mixed_gains", False), ("rerun_killed", None), ("rerun", False), ("form", "bin"), ("qc_path", False), ("saturate", []), ("wrot", "none"), ("reject", False), ("ns2add", 0),
                      ("drop_sync", False), ("default_k", False), ("order", None), ("victim", None), ("p_switch", 0.0),
                      ("k_filter", False)):
         if plan.get(key) != val:
